@@ -5,6 +5,7 @@ package buf
 
 import (
 	"bytes"
+	"errors"
 	"fmt"
 	"io"
 	"net/http"
@@ -202,7 +203,13 @@ func runC06(c c06case, rep *lib.Report) {
 		if last {
 			s.bodyPrefix, s.readErr = io.ReadAll(r.Body)
 		} else {
-			if sc.consume == 3 {
+			if sc.consume == 4 {
+				// io.Copy into a destination that refuses its very first Write (a backend connection that has been
+				// reset): whatever the body's WriteTo took out of the buffered request before it noticed is gone for
+				// this attempt - and must be there again for the next
+				io.Copy(refusingWriter{}, r.Body)
+				s.bodyPrefix = nil
+			} else if sc.consume == 3 {
 				// the whole body pulled with io.Copy - which prefers the reader's WriteTo over Read
 				var sink bytes.Buffer
 				_, s.readErr = io.Copy(&sink, r.Body)
@@ -306,13 +313,17 @@ func runC06(c c06case, rep *lib.Report) {
 	}
 }
 
+type refusingWriter struct{}
+
+func (refusingWriter) Write(p []byte) (int, error) { return 0, errors.New("connection reset by peer") }
+
 func c06cases(tier string) []c06case {
 	var out []c06case
 	mems := []int{8, 64}
 	var scripts1 []attemptScript
-	for cons := 0; cons < 4; cons++ {
+	for cons := 0; cons < 5; cons++ {
 		for m := range mutationNames {
-			if cons == 3 && m > 1 {
+			if cons >= 3 && m > 1 {
 				continue // consumption through io.Copy/WriteTo: with the first two mutations only
 			}
 			scripts1 = append(scripts1, attemptScript{cons, m})
@@ -376,7 +387,7 @@ func c06cases(tier string) []c06case {
 func RunC06(tier string, sh lib.Shard, rep *lib.Report) {
 	cases := c06cases(tier)
 	rep.Bounds["cases"] = len(cases)
-	rep.Rule = "full product memory threshold {8,64,default 1MiB} x body length {0,1,mem-1,mem,mem+1,3mem, ~1MiB(+)} x framing {Content-Length, chunked 1/7/whole, unknown length without chunking (HTTP/2 stream), ContentLength 0 over a non-empty body (in-process request of unknown length)} x method x header set x retry depth {1,2,3; 10..13 around the built-in cap of 11 attempts} x per-failed-attempt script (bytes consumed {0, half, all by Read, all by io.Copy/WriteTo} x 8 request mutations, the request body closed by every failed attempt); request parsed by http.ReadRequest from raw bytes, real buffer.ServeHTTP on long-lived Buffer instances (one per threshold x retry depth, serving all its cases in sequence); every invocation's method/URL/headers/ContentLength/TransferEncoding/body compared with the client's original; every fifth case again with Verbose(true) and a formatting logger; non-trivial = cases with at least one retry or a spilled body"
+	rep.Rule = "full product memory threshold {8,64,default 1MiB} x body length {0,1,mem-1,mem,mem+1,3mem, ~1MiB(+)} x framing {Content-Length, chunked 1/7/whole, unknown length without chunking (HTTP/2 stream), ContentLength 0 over a non-empty body (in-process request of unknown length)} x method x header set x retry depth {1,2,3; 10..13 around the built-in cap of 11 attempts} x per-failed-attempt script (bytes consumed {0, half, all by Read, all by io.Copy/WriteTo, io.Copy into a writer that refuses its first Write} x 8 request mutations, the request body closed by every failed attempt); request parsed by http.ReadRequest from raw bytes, real buffer.ServeHTTP on long-lived Buffer instances (one per threshold x retry depth, serving all its cases in sequence); every invocation's method/URL/headers/ContentLength/TransferEncoding/body compared with the client's original; every fifth case again with Verbose(true) and a formatting logger; non-trivial = cases with at least one retry or a spilled body"
 	rep.Require("requests_spilled_to_disk", "requests_with_length_zero_and_a_body", "cases_with_retries", "cases_retried_up_to_the_built_in_cap", "cases_rerun_verbose", "uploads_broken_midway")
 	for i, c := range cases {
 		if !sh.Mine(i) {
